@@ -217,7 +217,9 @@ def flatten(ctx):
                     detail = "insert(%s) under %s" % (", ".join(args), ins[0]["guards"])
                 ctx.expect(ok, "C08.4", "flatten/id-path-table", fn["sp"], "id -> path for every entry that has a path", detail)
             else:
-                expect_term(ctx, "C08.4", "flatten/id-path-table", fn["sp"], init, exp_p, "id -> path for every entry that has a path")
+                # (the per-entry pair as a match on the conversion's result, or - the same in the result position of the closure - `Ok((id, conv?))`)
+                exp_p2 = ("Iterator::collect(Iterator::map(Iterator::filter(%s,|1|{Not(Path::is_empty(C1_0.ty.path))}),|1|{Ok((C1_0.id,utils::syn_type_path(C1_0.ty)?))}))?") % REG
+                expect_term(ctx, "C08.4", "flatten/id-path-table", fn["sp"], init, [exp_p, exp_p2], "id -> path for every entry that has a path")
     # result
     lits = list(q.struct_lits(fn["body"], "derives::FlatDerivesRegistry"))
     ok = len(lits) == 2 and all(set(f["name"] for f in l["fields"]) == {"default_derives", "specific_type_derives"} for l in lits)
